@@ -45,6 +45,9 @@ def reaching_def(body, l, at_bb):
     return best
 
 
+SCALAR_TYS = ('f32', 'f64', 'bool', 'usize', 'isize', 'u8', 'u16', 'u32', 'u64', 'u128', 'i8', 'i16', 'i32', 'i64', 'i128', 'char')
+
+
 def describe(body, op, depth=6, at=None):
     """Structural description of an operand (a string that is stable under
     renumbering of temporaries).  `at` = block of the use, to resolve reassigned variables."""
@@ -53,8 +56,9 @@ def describe(body, op, depth=6, at=None):
     if is_const(op):
         if op.get('promoted'):
             return 'promoted[%s]' % op.get('ptext', '?')
-        if 'def' in op:
+        if 'def' in op and not (op.get('ty') in SCALAR_TYS and 'bits' in op):
             return 'const ' + op['def']
+        # (a named constant of primitive type is transparent: `const MIN: f32 = -1.0` reads as -1.0)
         v = const_value(op)
         if v is not None:
             return repr(v)
@@ -286,8 +290,24 @@ def explore(body, tracked=None, summaries=None, max_states=20000, on_call=None):
                     env[p] = frozenset([var])
                 else:
                     env[p] = frozenset(['?'])
-            if s['k'] == 'assign' and not s['lhs']['p'] and s['lhs']['l'] == 0:
-                ret = describe_rv(body, s['rv'])
+            if s['k'] == 'assign' and not s['lhs']['p']:
+                # path-local value of temporaries assigned on several branches (e.g. the return slot of a spliced-in
+                # helper: `_r = A` in one arm, `_r = B` in another, then `_0 = move _r`)
+                L = s['lhs']['l']
+                rv0 = s['rv']
+                src = op_local(rv0['op']) if rv0['k'] == 'use' and is_place(rv0['op']) and not rv0['op']['pl']['p'] else None
+                if src is not None and ('d', src) in env:
+                    dv = env[('d', src)]
+                elif L == 0 or len(body.defs().get(L, [])) > 1:
+                    dv = describe_rv(body, rv0)
+                else:
+                    dv = None
+                if dv is not None:
+                    env[('d', L)] = dv
+                    if L == 0:
+                        ret = dv
+                elif ('d', L) in env:
+                    del env[('d', L)]
             if s['k'] == 'assign' and not s['lhs']['p']:
                 # path-local constant propagation for temporaries assigned on several branches
                 # (`matches!`, `&&`, `||` lower to `_t = const true` / `_t = const false` + switch)
@@ -329,6 +349,9 @@ def explore(body, tracked=None, summaries=None, max_states=20000, on_call=None):
                 continue
             if not t['dest']['p'] and t['dest']['l'] == 0:
                 ret = '%s(%s)' % (cp, ', '.join(describe(body, a, 4, at=bb) for a in t['args']))
+            elif not t['dest']['p'] and len(body.defs().get(t['dest']['l'], [])) > 1:
+                env = dict(env)
+                env[('d', t['dest']['l'])] = '%s(%s)' % (cp, ', '.join(describe(body, a, 4, at=bb) for a in t['args']))
             envs = [env]
             if summaries and cp in summaries:
                 envs = summaries[cp](env, t, body)
